@@ -229,11 +229,15 @@ CleanupTick ==
     /\ cnt' = [cnt EXCEPT !.ticks = @ + 1]
     /\ UNCHANGED <<table, open, accepted, up, cur, bst>>
 
+\* The closer closes a connection that was taken out of the pool (after its grace period).  A call that is
+\* in flight to the same backend -- which came back into the table in the meantime -- runs on another
+\* connection and is not touched; the behaviour notes the moment ("d") so that it can be replayed.
 Drop(b) ==
     /\ closing[b] > 0
     /\ closing' = [closing EXCEPT ![b] = @ - 1]
     /\ open' = [open EXCEPT ![b] = @ - 1]
-    /\ UNCHANGED <<table, pool, stale, live, accepted, up, cur, bst, cnt, hist>>
+    /\ cur' = IF cur.pc = "open" /\ cur.be = b THEN [cur EXCEPT !.ord = Append(@, "d")] ELSE cur
+    /\ UNCHANGED <<table, pool, stale, live, accepted, up, bst, cnt, hist>>
 
 -----------------------------------------------------------------------------
 \* Outages: a backend that is in the table stops listening (every connection to it dies) and
